@@ -140,28 +140,33 @@ func runC07(r *core.Run) {
 			jobs = append(jobs, c07Job{sc, c, bound, gran})
 		}
 	}
-	three := []string{"core", "gfm", "all"}
+	three := []string{"core", "gfm", "all+cjk+autoid+attr"}
+	rich := "all+cjk+autoid+attr"
 	if r.Quick() {
+		add("S0", []string{"core"}, 2, "stmt")
+		add("S0", []string{"gfm", rich}, 2, "func")
 		add("S1", three, 1, "stmt")
-		add("S1", three, 2, "func")
-		add("S2", []string{"all"}, 1, "stmt")
+		add("S2", []string{rich}, 1, "stmt")
 		add("S2", []string{"core", "gfm"}, 1, "func")
-		add("S3", []string{"all"}, 1, "func")
+		add("S3", []string{rich}, 1, "func")
 		add("S4", three, 1, "stmt")
 		add("S5", three, 1, "stmt")
-		add("S6", []string{"core", "all"}, 1, "stmt")
+		add("S6", []string{"core", rich}, 1, "stmt")
 	} else {
-		add("S1", three, 2, "stmt")
-		add("S1", []string{"core", "all"}, 3, "func")
+		add("S0", three, 2, "stmt")
+		add("S0", []string{"core", rich}, 3, "func")
+		add("S1", three, 1, "stmt")
+		add("S1", three, 2, "func")
 		add("S2", three, 1, "stmt")
-		add("S2", []string{"all"}, 2, "func")
+		add("S2", []string{rich}, 2, "func")
 		add("S3", three, 1, "stmt")
 		add("S4", three, 1, "stmt")
-		add("S4", []string{"core", "all"}, 2, "func")
-		add("S5", []string{"core", "all"}, 2, "func")
+		add("S4", []string{"core"}, 2, "func")
+		add("S5", three, 1, "stmt")
+		add("S5", []string{"core", rich}, 2, "func")
 		add("S6", three, 1, "stmt")
-		add("S6", []string{"core", "all"}, 2, "func")
-		add("S1", []string{"all+cjk+autoid+attr", "all+unsafe+xhtml+hardwraps"}, 1, "stmt")
+		add("S6", []string{"core"}, 2, "func")
+		add("S1", []string{"all+unsafe+xhtml+hardwraps", "all+cjk+attr+unsafe"}, 1, "stmt")
 	}
 
 	nsh := core.Workers()
@@ -281,6 +286,7 @@ func runC07(r *core.Run) {
 		s.AddSample(fmt.Sprintf("%s: %d executions, %d scheduled steps, %d with blocking on sync.Once, by preemptions %v", j, execs, steps, blocked, byCost))
 		s.Done()
 	}
+	c07Coverage(r, b)
 	c07RacePass(r, b)
 	if broken && r.ViolationCount() == 0 {
 		fmt.Println("C07: the exploration harness reported errors (nondeterministic replay or crashed shard); no verdict")
@@ -303,7 +309,7 @@ func c07RacePass(r *core.Run, b *c07Build) {
 	rounds := core.Pick(r, 20, 100)
 	procs := core.Pick(r, 3, 8)
 	for _, sc := range []string{"S1", "S2", "S4", "S5", "S6", "S7"} {
-		for _, c := range []string{"core", "all"} {
+		for _, c := range []string{"core", "all+cjk+autoid+attr"} {
 			if sc == "S7" && c != "core" {
 				continue
 			}
@@ -391,6 +397,32 @@ func replayC07(r *core.Run, v *core.Violation) {
 	s.Evals.Add(2)
 	if err != nil || strings.Contains(string(out), "REPLAY-FAILS") {
 		s.Violate(v.Sig, v.Cfg, nil, v.Ops, "replayed schedule fails: "+core.Clip(string(out), 1500), v.Expected, v.Actual)
+	}
+	s.Done()
+}
+
+// c07Coverage reports which instrumented functions the scenarios execute under the scheduler (a vacuity guard: shared
+// state in a function no scenario reaches cannot be found by exploring schedules).
+func c07Coverage(r *core.Run, b *c07Build) {
+	s := r.Sub("function-coverage", "not a verdict: for the richest configuration, the instrumented functions executed by managed goroutines in the scenarios' default and reversed-start schedules; functions never executed are listed so that the drivers can be extended")
+	s.Companion = true
+	cmd := exec.Command(b.run, "cover", filepath.Join(b.dir, "funcs.json"), "all+cjk+autoid+attr")
+	cmd.Env = append(os.Environ(), "GOMAXPROCS=1")
+	out, err := cmd.Output()
+	var rep struct {
+		Total   int      `json:"functions_instrumented"`
+		Managed int      `json:"executed_by_a_managed_goroutine"`
+		Shared  int      `json:"executed_by_two_or_more_managed_goroutines"`
+		Unm     int      `json:"executed_only_outside_the_scheduler"`
+		Never   []string `json:"never_executed"`
+	}
+	if err == nil && json.Unmarshal(bytes.TrimSpace(out), &rep) == nil {
+		s.Evals.Store(int64(rep.Total))
+		s.Notes = append(s.Notes, fmt.Sprintf("%d functions instrumented; %d executed by a managed goroutine (%d by two or more); %d only outside the scheduler (set-up); %d never", rep.Total, rep.Managed, rep.Shared, rep.Unm, len(rep.Never)))
+		s.Notes = append(s.Notes, "never executed: "+core.Clip(strings.Join(rep.Never, " "), 6000))
+		fmt.Printf("  coverage: %d/%d functions run under the scheduler, %d by ≥2 goroutines, %d never executed\n", rep.Managed, rep.Total, rep.Shared, len(rep.Never))
+	} else {
+		s.Notes = append(s.Notes, fmt.Sprint("coverage run failed: ", err))
 	}
 	s.Done()
 }
